@@ -80,6 +80,18 @@ impl Numeric {
         match *self {
             Numeric::Rational(ref rational) => (rational.numer(), rational.denom()),
             Numeric::Float(x) => {
+                if !x.is_finite() {
+                    // NaN and the infinities have no rational value.
+                    // Report them as 0/0, 1/0 and -1/0 rather than panic.
+                    let numer = if x.is_nan() {
+                        0
+                    } else if x > 0.0 {
+                        1
+                    } else {
+                        -1
+                    };
+                    return (BigInt::from(numer as i64), BigInt::zero());
+                }
                 let rational = BigRat::from(x);
                 (rational.numer(), rational.denom())
             }
